@@ -40,15 +40,15 @@ func (s *attackSim) run(keep bool) {
 	w.Activate()
 	s.atkStart = w.Now()
 	for i := 0; i < cfg.Stoppers; i++ {
-		go stopper(atk)
+		go stopper(atk, i)
 	}
 	go func() {
 		res := atk.Attack(simTargeter, pacer, cfg.Du, cfg.Name)
 		for i := 0; i < cfg.Consumers; i++ {
-			go consumer(res)
+			go consumer(res, i)
 		}
 		// one reserve stopper used by the controller to end unbounded attacks
-		go stopper(atk)
+		go stopper(atk, 99)
 		simrt.Park(kStarted, 0, 0, 0, 0, nil)
 	}()
 
